@@ -46,8 +46,8 @@ def build():
 
 
 # ---------------------------------------------------------------- scenario generator
-FAMILIES_C12 = ["burst", "timeout", "saturate", "null", "mixed", "owner1"]
-FAMILIES_C13 = ["shutdown", "threads", "reuse", "shutdown", "mixed13", "threads", "quit"]
+FAMILIES_C12 = ["burst", "timeout", "saturate", "null", "mixed", "owner1", "stall"]
+FAMILIES_C13 = ["shutdown", "threads", "reuse", "shutdown", "mixed13", "threads", "quit", "stall"]
 
 
 class Scn:
@@ -116,9 +116,50 @@ def gen_quit(rng):
     return g.lines()
 
 
+def gen_stall(rng):
+    """the owner stays inside one handler for more than the 10 s idle timeout (`clk`): the pool's event stays pending (or the
+    owner sits in a completion) while the pool's last worker idles out; then a worker of ANOTHER pool submits a continuation
+    into the now thread-less pool (only thread_needed is posted, behind the pending pool event), and the owner puts the pool
+    before returning to its loop: the pool event runs first and must not free the pool with the item queued (defect D10)"""
+    g = Scn(rng)
+    g.head.append(f"cfg seed={rng.randrange(1, 1 << 30)} stay={rng.choice([5, 10, 10, 20, 30])} waitlimit=800 cblimit=4000 steplimit=400000")
+    m0, m1 = rng.choice([1, 2, 3]), rng.choice([1, 1, 2, 3])
+    hooks = " hooks" if rng.random() < 0.4 else ""
+    g.sec[0].append(f"obj pool p0 max={m0}")
+    g.sec[0].append(f"obj pool p1 max={m1}{hooks}")
+    warm = [g.item(0) for _ in range(rng.choice([1, 1, 2]))]
+    x, y = g.item(0), g.item(0)
+    extra = [g.item(0) for _ in range(rng.choice([0, 0, 1, 2]))]
+    t0, t1 = g.timer(0), g.timer(0)
+
+    def ys(lo=8, hi=16):
+        return ["yield"] * rng.randrange(lo, hi)
+    body = []
+    where = rng.random()
+    if where < 0.7:
+        # everything inside one timer handler of the owner
+        body += [f"submit p1 {w}" for w in warm] + ys() + [f"clk {rng.choice([10, 11, 11, 15, 25]) * SEC + rng.choice([0, 1, 1000])}"] + ys()
+        body += [f"submit p0 {x}"] + ys() + [f"put p1"]
+        g.tail.append(f"on {t0} 1 : " + " ; ".join(body))
+    else:
+        # the stall happens inside a completion of p1 (owner pc = running the stolen batch)
+        g.tail.append(f"on {t0} 1 : " + " ; ".join([f"submit p1 {w}" for w in warm]))
+        body += ys(2, 8) + [f"clk {rng.choice([10, 11, 11, 15]) * SEC + rng.choice([0, 1])}"] + ys() + [f"submit p0 {x}"] + ys() + ["put p1"]
+        g.tail.append(f"on {warm[0]}.done 1 : " + " ; ".join(body))
+    g.tail.append(f"on {x}.work 1 : " + " ; ".join(["yield"] * rng.choice([0, 0, 1, 2]) + [f"submitc p1 {y}"] +
+                                                   [f"submitc {rng.choice(['p0', 'p1'])} {e}" for e in extra]))
+    if rng.random() < 0.3:
+        g.tail.append(f"on {y}.work 1 : yield ; yield")
+    g.tail.append(f"on {t1} 1 : put p0" + (" ; put p1" if rng.random() < 0.5 else ""))
+    g.sec[0].append(f"do poolcreate p0 ; poolcreate p1 ; trel {t0} {rng.choice([0, 1000])} ; treg {t1} {T0 + 200 * SEC}")
+    return g.lines()
+
+
 def gen_scenario(rng, family):
     if family == "quit":
         return gen_quit(rng)
+    if family == "stall":
+        return gen_stall(rng)
     g = Scn(rng)
     seed = rng.randrange(1, 1 << 30)
     stay = rng.choice([10, 30, 55, 55, 75, 92])
@@ -150,6 +191,9 @@ def gen_scenario(rng, family):
     def pick_pool():
         return rng.choice(pools)
 
+    # pool -> items first submitted to it at setup: lets a work function address "the other pool" on purpose
+    home = {}
+
     def some_actions(ctx, depth=0):
         """actions usable in a reaction; ctx: 'owner' (completion/timer/event in the owner) or 'work' (inside a work function)"""
         acts = []
@@ -157,6 +201,8 @@ def gen_scenario(rng, family):
             r = rng.random()
             if ctx == "work":
                 if r < 0.6:
+                    # with two pools about half of these are continuations into the OTHER pool than the one whose worker
+                    # runs the work function (a foreign submitter for that pool: model action submitf)
                     acts.append(f"submitc {pick_pool()} {rng.choice(items)}")
                 elif r < 0.8:
                     acts.append("yield")
@@ -186,7 +232,24 @@ def gen_scenario(rng, family):
     nb = {"burst": [1, 3, 5, 8], "timeout": [1, 1, 2], "saturate": [2, 4, 6], "null": [0, 1], "mixed": [0, 2, 5],
           "owner1": [1, 3], "shutdown": [0, 1, 3, 6], "threads": [0, 1, 2], "reuse": [1, 3], "mixed13": [0, 2, 4]}[family]
     for x in rng.sample(items, min(len(items), rng.choice(nb))):
-        setup.append(f"submit {pick_pool()} {x}")
+        p = pick_pool()
+        home.setdefault(p, []).append(x)
+        setup.append(f"submit {p} {x}")
+    # two pools: a deliberate cross-pool continuation (worker of one pool submits into the other, which may have no
+    # worker at all: only thread_needed is posted), sometimes raced with a put of the target pool from an owner timer
+    if len(pools) == 2 and rng.random() < 0.5:
+        src = rng.choice(pools)
+        dst = pools[1 - pools.index(src)]
+        x = rng.choice(home[src]) if home.get(src) else rng.choice(items)
+        if x not in home.get(src, []):
+            setup.append(f"submit {src} {x}")
+        y = rng.choice([i for i in items if i != x] or items)
+        ys = " ; ".join(["yield"] * rng.choice([0, 1, 1, 2]))
+        g.tail.append(f"on {x}.work 1 : " + " ; ".join(a for a in [ys, f"submitc {dst} {y}", rng.choice(["", "yield", "yield ; yield"])] if a))
+        if family in ("shutdown", "reuse", "mixed13", "mixed") and rng.random() < 0.6:
+            t = g.timer(owner)
+            setup.append(f"trel {t} {rng.choice([0, 0, 0, 1, 1000])}")
+            g.tail.append(f"on {t} 1 : " + " ; ".join(["yield"] * rng.choice([0, 1, 2, 2, 3]) + [f"put {dst}"]))
     for x in nullitems:
         if rng.random() < 0.7:
             setup.append(f"submit null {x}")
@@ -284,20 +347,43 @@ def gen_scenario(rng, family):
     return g.lines()
 
 
+def corpus_bases():
+    """the regression scenarios of both properties (same harness, same model): bases for the schedule enumeration.
+    Scenarios that need pthread_create to fail are outside the stated contract (ASSUMPTIONS) and are left out."""
+    out = []
+    for prop in ("C13", "C12"):
+        d = os.path.join(common.VERIF, "corpus", prop)
+        for f in sorted(os.listdir(d)) if os.path.isdir(d) else []:
+            if not f.endswith(".scn"):
+                continue
+            ls = [l.rstrip("\n") for l in open(os.path.join(d, f)) if l.strip() and not l.startswith("#")]
+            if any("failcreate" in l for l in ls if l.startswith("cfg")):
+                continue
+            out.append((f"corpus-{prop}-{f[:-4]}", ls))
+    return out
+
+
 def gen_cases(prop, tier, seed):
     rng = random.Random(seed * 7919 + (12 if prop == "C12" else 13))
     fams = FAMILIES_C12 if prop == "C12" else FAMILIES_C13
     n = (2400 if tier == "quick" else 40000)
     from . import sched
     erng = random.Random(seed * 7919 + 1212)
-    bases = []
+    bases = corpus_bases()
+    ncorpus = len(bases)
+    # the regression scenarios as they are (their own seeded schedule) ...
+    for name, ls in bases:
+        yield (name, ls)
+    # ... and as the first bases of the systematic enumeration
     k = 0
-    while len(bases) < 40 and k < 2000:
+    while len(bases) < 40 + ncorpus and k < 2000:
         fam = fams[k % len(fams)]; k += 1
         ls = gen_scenario(erng, fam)
         if len(ls) <= 26:
             bases.append((f"{fam}{len(bases)}", ls))
-    yield from sched.enum_cases(prop, HARNESS, bases, tier, os.path.join(common.BUILD, "sched-c12"))
+    # the regression corpus does not use up the quota of generated bases
+    yield from sched.enum_cases(prop, HARNESS, bases, tier, os.path.join(common.BUILD, "sched-c12"),
+                                want=(4 if tier == "quick" else 8) + ncorpus)
     for i in range(n):
         fam = fams[i % len(fams)]
         yield (f"{fam}-{i}", gen_scenario(rng, fam))
@@ -336,6 +422,9 @@ def oracle(log, scenario=(), want=("C12", "C13")):
     ended = None
     evreg, in_main = {}, set()
     detached_by = {}
+    last_snap = {}               # pool -> fields of its latest white-box snapshot
+    tn_pending = set()           # pools whose thread_needed is posted and not yet handled
+    in_tn = {}                   # thread -> [pool, thread created inside the handler?]
     for n, t, w in parse(log):
         k = w[0]
         if k == "FATAL":
@@ -379,6 +468,22 @@ def oracle(log, scenario=(), want=("C12", "C13")):
                 bad("threads>max", f"line {n}: {kv['started']} worker threads started with max_threads={kv['max']}")
             if int(kv["started"]) < 0:
                 bad("threads<0", f"line {n}: started_threads negative")
+            last_snap[w[1][7:]] = kv
+        elif k == "IPOST" and w[1].startswith("tn:"):
+            tn_pending.add(w[1][3:])
+        elif k == "IH" and w[1].startswith("tn:") and w[2] == "begin":
+            tn_pending.discard(w[1][3:])
+            in_tn[t] = [w[1][3:], False]
+        elif k in ("THREAD-CREATE", "THREAD-CREATE-FAILED") and t in in_tn:
+            in_tn[t][1] = True
+        elif k == "IH" and w[1].startswith("tn:") and w[2] == "end":
+            p, created = in_tn.pop(t, [w[1][3:], True])
+            kv = last_snap.get(p, {})
+            # C13 (and C12's no-lost-work): the request for a thread is what a continuation from a non-owner thread relies
+            # on; it must be honoured whether or not the pool has been put in the meantime
+            if not created and kv.get("queued") and kv.get("started") == "0" and not kv.get("idle"):
+                bad("tn:no-thread-for-queued-work", f"line {n}: the thread_needed handler of pool {p} returned without starting a thread although "
+                    f"work is queued ({kv['queued']}) and the pool has no worker thread (shutting_down={kv.get('shut')})")
         elif k == "IREG":
             if w[1].startswith("kick:"):
                 worker_pool[t] = w[1].split(":")[1]
@@ -397,6 +502,11 @@ def oracle(log, scenario=(), want=("C12", "C13")):
         elif k == "IUNREG":
             if w[1].startswith("tn:"):
                 pool_freed.add(w[1][3:])
+                kv = last_snap.get(w[1][3:], {})
+                if kv.get("queued"):
+                    bad("put:freed-with-queued-item", f"line {n}: pool {w[1][3:]} is freed (its events unregistered) while {kv['queued']} is still on "
+                        f"work_items" + (" and thread_needed is posted but not yet handled" if w[1][3:] in tn_pending else "") +
+                        ": a submitted item can never run")
             elif w[1].startswith("dead:"):
                 dead_joined.add(int(w[1].split(":")[1]))
         elif k == "HOOK":
@@ -590,7 +700,7 @@ def replay_model(out):
 
 
 NONTRIVIAL = ("wAfter-rekick", "wEnter-rekick", "wTimeoutRun-rearm", "wTimeoutRun-die", "submitc-threadneeded", "oTnRun-start",
-              "oTnRun-nothing", "submit-nokick", "submitc-nokick", "wEnter-die", "wAfter-die", "oFinish-free", "thread-died")
+              "oTnRun-nothing", "submit-nokick", "submitc-nokick", "submitf-threadneeded", "submitf-kick", "submitf-nokick", "oFinish-keep-queued", "wEnter-die", "wAfter-die", "oFinish-free", "thread-died")
 
 
 def one_case(args):
@@ -659,7 +769,8 @@ def run_prop(prop, tier, seed, proof, sigfilter=None):
 
 RULE = ("T-sched scenarios (one deterministic interleaving per scenario+seed): pools with max_threads 1-4 (1-2 pools, owner = main thread or "
         "a second thread, with and without thread_start/stop hooks), bursts of 0-16 submissions at setup / from completions / from work "
-        "functions (continuations) / from owner timers placed at, 1 ns, 1 us, 0.5 s around multiples of the 10 s idle timeout / at the "
+        "functions (continuations, also into the other pool of a two-pool scenario = a submitter that is neither owner nor worker of the target pool, "
+        "raced with put of the target pool) / from owner timers placed at, 1 ns, 1 us, 0.5 s around multiples of the 10 s idle timeout / at the "
         "owner's n-th wait, NULL-pool items (also nested and from spawned threads), put at setup / in completions / in timers / at global "
         "quiescence, pool re-creation in the same structure right after put, iv_thread spawns in 5 exit modes, all poll methods; "
         "every pool snapshot (started, head/tail, queued, done, idle list, kicked and timer flags of every live worker) compared with the "
@@ -671,7 +782,8 @@ ASSUMPTIONS = [
     "iv_timer: a registered timer fires once when its time has come (C05/C06); the 10 s idle timeout is the only timer of iv_work",
     "pthread_create does not fail (iv_work_submit_pool ignores the failure: the item then waits for the next submission that starts a thread)",
     "fewer than 2^31 work items outstanding (uint32 sequence numbers modelled as Nat)",
-    "valid use: submissions and put only from the documented threads, no submission after put, an item is not re-submitted before its completion ran, put called once",
+    "valid use: submit_work only from the owner, submit_continuation from the owner or from any thread running a work function of any pool; no submission to a pool after put on it and no put while a submission to it is in progress (both enforced by the harness: P[i].cur, P[i].submitting); an item is not re-submitted before its completion ran; put called once",
+    "model = iv_work.c after the D10 repair (harness/iv_work_d10.patch: iv_work_event frees a shutting-down pool only if work_items is empty too)",
     "the pool lock is released by pthread_mutex_unlock without touching the mutex afterwards (POSIX), so freeing the pool right after the last worker's unlock is safe",
     "critical sections are atomic in the model: checked on every run by the lock-order oracle (the pool lock is never acquired while an event-list mutex is held)",
 ]
